@@ -83,6 +83,7 @@ def opP : P Op := do
   | 14 => do return .topoAgg (← dimP)
   | 15 => do let g ← nat; let d ← dimP; return .remap g d
   | 16 => do let c ← bool; let k ← countsP; return .getDual c k
+  | 17 => do let k ← nat; let l ← bool; return .expandDims k l
   | _ => failure
 
 def encDims (ds : Dims) : String :=
